@@ -1055,6 +1055,12 @@ func (c *c17Case) actSign(t *rapid.T) {
 			sigAlg = "pss"
 		}
 		e := &c17Entry{kind: "sig", text: res.Signature, ver: want, fp: m.fps[want], ctx: ctx, pt: msg, hash: h, marsh: marsh, sigAlg: sigAlg, salt: salt, rotAt: c.rotations, cfgAt: c.cfgChanges}
+		if c.kind.kt == KeyType_ED25519 && c.derived {
+			// the derived public key is returned with the signature
+			if len(res.PublicKey) != ed25519.PublicKeySize || !ed25519.Verify(ed25519.PublicKey(res.PublicKey), msg, raw) {
+				c.viol(t, "signature-invalid-under-returned-key", "the derived-key signature does not verify under the public key returned with it")
+			}
+		}
 		if good, why := c.stdlibVerify(p.Keys[strconv.Itoa(want)], e, raw); !good {
 			c.viol(t, "signature-invalid-under-version-key", "the version %d signature does not verify with the standard library under the public key of version %d %s", want, want, why)
 		}
